@@ -182,7 +182,15 @@ def _n4_function(fn: ast.AST):
                 hs = header_exprs(nxt)
                 uses = [x for h in hs for x in ast.walk(h) if isinstance(x, ast.Name) and x.id == v and isinstance(x.ctx, ast.Load)]
                 whole = len(hs) >= 1 and isinstance(hs[0], ast.Name) and hs[0].id == v and not isinstance(nxt, (ast.AugAssign,))
-                if len(uses) == 1 and (whole or pure(s.value)):
+                first_arg = False
+                if len(uses) == 1 and hs and isinstance(hs[0], ast.Call) and not isinstance(nxt, ast.AugAssign):
+                    c0 = hs[0]
+                    # v is a direct argument of the call that is the statement's value, and everything evaluated before it is
+                    # side-effect free: the temporary's expression is evaluated at the same point either way
+                    for k_, a_ in enumerate(c0.args):
+                        if a_ is uses[0]:
+                            first_arg = pure(c0.func) and all(pure(x) for x in c0.args[:k_])
+                if len(uses) == 1 and (whole or first_arg or pure(s.value)):
                     target = uses[0]
 
                     class Sub(ast.NodeTransformer):
@@ -259,6 +267,8 @@ def normalise(tree: ast.Module) -> ast.Module:
 #   N8  accumulation loops become comprehensions: `v = []` / `set()` / `{}` directly followed by a `for` whose body only
 #       appends / adds / stores one element, possibly under `if` filters or `if ...: continue` guards, possibly through a
 #       nested `for`; comprehension filters joined by `and` are split into separate `if` clauses.
+#   N8b a list comprehension passed directly to frozenset/set/any/all/sum/tuple/sorted/min/max/join is a generator expression.
+#   N9  a search loop `for T in IT: if C: S; break` (S not reading T) becomes `if any(C for T in IT): S`.
 #   P1  keyword arguments of calls whose callee has one known signature in the package (function or class by name, method by
 #       attribute name) are turned into positional ones as far as they continue the positional prefix.
 #   P2  helpers the rules do not know by name are looked through: a call to a private (`_name`), small, non-recursive,
@@ -513,13 +523,48 @@ def _n8(tree: ast.AST):
             node.ifs = ifs
 
 
+CONSUMERS = {'frozenset', 'set', 'any', 'all', 'sum', 'tuple', 'list', 'sorted', 'min', 'max', 'dict', 'fzset'}
+
+
+def _n8b(tree: ast.AST):
+    """A list comprehension handed straight to a consumer that only iterates it is a generator expression."""
+    for c in ast.walk(tree):
+        if isinstance(c, ast.Call) and len(c.args) >= 1 and isinstance(c.args[0], ast.ListComp) and not c.keywords \
+                and ((isinstance(c.func, ast.Name) and c.func.id in CONSUMERS and len(c.args) == 1)
+                     or (isinstance(c.func, ast.Attribute) and c.func.attr == 'join' and len(c.args) == 1)):
+            lc = c.args[0]
+            c.args[0] = ast.copy_location(ast.GeneratorExp(elt=lc.elt, generators=lc.generators), lc)
+
+
+def _n9(tree: ast.AST):
+    """for T in IT: if C: S...; break   (no else, S does not read T)   ->   if any(C for T in IT): S..."""
+    for node in ast.walk(tree):
+        for field, b in _blocks(node):
+            for i, st in enumerate(b):
+                if not (isinstance(st, ast.For) and not st.orelse and len(st.body) == 1 and isinstance(st.body[0], ast.If)
+                        and not st.body[0].orelse and len(st.body[0].body) >= 2 and isinstance(st.body[0].body[-1], ast.Break)):
+                    continue
+                inner = st.body[0]
+                S = inner.body[:-1]
+                tnames = {x.id for x in ast.walk(st.target) if isinstance(x, ast.Name)}
+                if any(isinstance(x, ast.Name) and x.id in tnames for s_ in S for x in ast.walk(s_)):
+                    continue
+                if any(isinstance(x, (ast.Break, ast.Continue)) for s_ in S for x in ast.walk(s_)):
+                    continue
+                gen = ast.GeneratorExp(elt=inner.test, generators=[ast.comprehension(target=st.target, iter=st.iter, ifs=[], is_async=0)])
+                call = ast.Call(func=ast.Name(id='any', ctx=ast.Load()), args=[gen], keywords=[])
+                b[i] = ast.copy_location(ast.If(test=ast.copy_location(call, st), body=S, orelse=[]), st)
+
+
 def normalise_local_more(tree: ast.AST):
     _n3y(tree)
     _n8(tree)
+    _n9(tree)
     _n5(tree)
     _n4(tree)
     _n3(tree)
     _n7(tree)
+    _n8b(tree)
 
 
 import os as _os
@@ -677,6 +722,22 @@ class _Subst(ast.NodeTransformer):
         return n
 
 
+def _as_expr(stmts: List[ast.stmt]) -> Optional[ast.AST]:
+    """The value a statement list returns, as one expression, when it only chooses between returns."""
+    stmts = [s for s in stmts if not isinstance(s, ast.Pass)]
+    if not stmts:
+        return None
+    s0 = stmts[0]
+    if isinstance(s0, ast.Return) and s0.value is not None and len(stmts) == 1:
+        return s0.value
+    if isinstance(s0, ast.If):
+        a = _as_expr(s0.body)
+        b = _as_expr(s0.orelse) if s0.orelse and len(stmts) == 1 else (_as_expr(stmts[1:]) if not s0.orelse else None)
+        if a is not None and b is not None:
+            return ast.copy_location(ast.IfExp(test=s0.test, body=a, orelse=b), s0)
+    return None
+
+
 def _helper_shape(fn: ast.FunctionDef):
     """('expr', expr) for `return <expr>` bodies, ('stmts', [stmts], ret_expr or None) for single-exit statement bodies."""
     body = [s for s in fn.body if not isinstance(s, ast.Pass)]
@@ -690,6 +751,9 @@ def _helper_shape(fn: ast.FunctionDef):
     rets = [x for x in ast.walk(fn) if isinstance(x, ast.Return)]
     if len(body) == 1 and isinstance(body[0], ast.Return) and body[0].value is not None:
         return ('expr', body[0].value)
+    e = _as_expr(body)
+    if e is not None:
+        return ('expr', e)
     if not rets:
         return ('stmts', body, None)
     if len(rets) == 1 and rets[0] is body[-1]:
